@@ -63,10 +63,81 @@ def curated():
     out.append(D.wf("two_roots_join", {
         "t1": T(next=[dict(when="succeeded", do=["t3"])]), "t2": T(next=[dict(when="succeeded", do=["t3"])]),
         "t3": T(join=-1, next=[dict(do=["t4"])]), "t4": T()}, fates={"t1": A, "t2": A, "t3": A, "t4": ["s"]}))
+    # task names that sort before the engine commands (transitions are processed by target name)
+    out.append(D.wf("cleanup_before_fail", {
+        "t1": T(next=[dict(when="failed", do=["a2", "fail", "t3"]), dict(when="succeeded", do=["t3"])]),
+        "a2": T(), "t3": T()}, fates={"t1": A, "a2": ["s"], "t3": ["s"]}))
+    out.append(D.wf("names_around_cmds", {
+        "b1": T(next=[dict(when="succeeded", do=["a2", "g3"]), dict(when="failed", do=["a2", "noop"])]),
+        "a2": T(next=[dict(do=["o4"])]), "g3": T(next=[dict(when="succeeded", do=["o4"])]),
+        "o4": T(join=-1)}, fates={"b1": A, "a2": A, "g3": A, "o4": ["s"]}))
     out.append(D.wf("fail_branch_parallel", {
         "t1": T(next=[dict(when="succeeded", do=["t3"]), dict(when="failed", do=["t2", "fail"])]),
         "t2": T(), "t3": T(), "t4": T()}, fates={"t1": A, "t2": ["s"], "t3": ["s"], "t4": A}))
+    out.append(D.wf("two_unreachable_joins", {
+        "t1": T(next=[dict(when="succeeded", do=["t5"])]),
+        "t2": T(next=[dict(when="failed", do=["t3"])]),
+        "t3": T(next=[dict(do=["t5", "t6"])]),
+        "t4": T(next=[dict(when="succeeded", do=["t6"])]),
+        "t5": T(join=-1), "t6": T(join=-1)},
+        fates={"t1": ["s"], "t2": ["s"], "t3": ["s"], "t4": ["s"], "t5": ["s"], "t6": ["s"]}))
     out.append(loop_def("loop2", 2))
+    return out
+
+
+def curated_items():
+    A = ["s", "f"]
+    out = []
+    for n, k in [(0, -1), (1, -1), (2, -1), (3, -1), (3, 1), (3, 2), (2, 0), (4, 2)]:
+        out.append(D.wf("items_%d_%d" % (n, k if k >= 0 else 9), {
+            "t1": T(items=n, conc=k, next=[dict(when="succeeded", pub=[["r", "res"]], do=["t2"]),
+                                           dict(when="failed", pub=[["r", "res"]], do=["noop"])]),
+            "t2": T()}, vars=[["r", 0]], output=[["or", "ctx:r"]], fates={"t1": A, "t2": ["s"]}))
+    out.append(D.wf("items_branch", {
+        "t1": T(next=[dict(do=["t2", "t3"])]),
+        "t2": T(items=2, next=[dict(when="succeeded", do=["t4"])]),
+        "t3": T(next=[dict(when="succeeded", do=["t4"])]),
+        "t4": T(join=-1)}, fates={"t1": ["s"], "t2": A, "t3": A, "t4": ["s"]}))
+    out.append(D.wf("items_join_target", {
+        "t1": T(next=[dict(when="succeeded", do=["t3"])]),
+        "t2": T(next=[dict(when="succeeded", do=["t3"])]),
+        "t3": T(join=-1, items=2, conc=1, next=[dict(pub=[["r", "res"]], do=["t4"])]), "t4": T()},
+        vars=[["r", 0]], output=[["or", "ctx:r"]], fates={"t1": ["s"], "t2": A, "t3": A, "t4": ["s"]}))
+    out.append(D.wf("items_join1_target", {
+        "t1": T(next=[dict(when="succeeded", do=["t3"])]),
+        "t2": T(next=[dict(when="succeeded", do=["t3"])]),
+        "t3": T(join=1, items=2, conc=1), }, fates={"t1": ["s"], "t2": ["s"], "t3": A}))
+    out.append(D.wf("items_parallel", {
+        "t1": T(items=2, next=[dict(when="succeeded", do=["t3"])]),
+        "t2": T(items=2, conc=1, next=[dict(when="succeeded", do=["t3"])]),
+        "t3": T(join=-1)}, fates={"t1": A, "t2": A, "t3": ["s"]}))
+    out.append(D.wf("items_retry", {
+        "t1": T(items=2, retry={"count": 1}, next=[dict(when="succeeded", do=["t2"])]),
+        "t2": T()}, fates={"t1": A, "t2": ["s"]}))
+    return out
+
+
+def curated_retry():
+    A = ["s", "f"]
+    out = []
+    for cnt in (1, 2):
+        for when in ("default", "completed", "succeeded"):
+            for delay in (-1, 2):
+                out.append(D.wf("retry_%d_%s_%d" % (cnt, when, max(delay, 0)), {
+                    "t1": T(retry={"count": cnt, "when": when, "delay": delay}, delay=(3 if delay > 0 else -1),
+                            next=[dict(when="succeeded", pub=[["x", "res"]], do=["t2"]),
+                                  dict(when="failed", do=["noop"])]),
+                    "t2": T()}, vars=[["x", 0]], output=[["ox", "ctx:x"]], fates={"t1": A, "t2": ["s"]}))
+    out.append(D.wf("retry_branch", {
+        "t1": T(next=[dict(do=["t2", "t3"])]),
+        "t2": T(retry={"count": 1}, next=[dict(when="succeeded", do=["t4"])]),
+        "t3": T(next=[dict(when="succeeded", do=["t4"])]),
+        "t4": T(join=-1)}, fates={"t1": ["s"], "t2": A, "t3": A, "t4": ["s"]}))
+    out.append(D.wf("retry_cmd", {
+        "t1": T(next=[dict(when="failed", do=["retry"]), dict(when="succeeded", do=["t2"])]),
+        "t2": T()}, fates={"t1": A, "t2": ["s"]}))
+    out.append(D.wf("retry_unhandled", {
+        "t1": T(retry={"count": 1}), }, fates={"t1": A}))
     return out
 
 
@@ -82,7 +153,7 @@ def loop_def(name, bound):
 CONDS = ["always", "succeeded", "succeeded", "failed", "completed"]
 
 
-def random_def(rng, nmax=4, publish=False, allow_cmds=True, fates_f=0.6, joins=True):
+def random_def(rng, nmax=4, publish=False, allow_cmds=True, fates_f=0.6, joins=True, items=False, retry=False):
     n = rng.randint(2, nmax)
     names = ["t%d" % (i + 1) for i in range(n)]
     tasks = {}
@@ -124,9 +195,34 @@ def random_def(rng, nmax=4, publish=False, allow_cmds=True, fates_f=0.6, joins=T
                 tasks[t]["join"] = rng.choice([-1, -1, 1, 2] + ([k] if k > 2 else []))
             elif k == 1 and rng.random() < 0.05:
                 tasks[t]["join"] = -1
+    if items:
+        for t in rng.sample(names, rng.choice([1, 1, 2]) if len(names) > 1 else 1):
+            tasks[t]["items"] = rng.choice([0, 1, 2, 2, 3, 3])
+            tasks[t]["conc"] = rng.choice([-1, -1, 1, 2, 0])
+            tasks[t]["concx"] = tasks[t]["conc"] > 0 and rng.random() < 0.3
+            if publish or rng.random() < 0.5:
+                for n in tasks[t]["next"][:1]:
+                    n["pub"].append(["r", "res"])
+    if retry:
+        for t in rng.sample(names, rng.choice([1, 1, 2]) if len(names) > 1 else 1):
+            tasks[t]["retry"] = {"on": True, "count": rng.choice([1, 1, 2]),
+                                 "when": rng.choice(["default", "default", "completed", "failed", "succeeded"]),
+                                 "delay": rng.choice([-1, -1, 2])}
+            if rng.random() < 0.3:
+                tasks[t]["delay"] = 3
     fates = {t: (["s", "f"] if rng.random() < fates_f else ["s"]) for t in names}
-    d = D.wf("r", tasks, vars=([["x", 0], ["y", 0]] if publish else []),
-             output=([["ox", "ctx:x"], ["oy", "ctx:y"]] if publish else []), fates=fates)
+    if rng.random() < 0.25:
+        # rename some tasks so that they sort before / between the engine commands
+        ren = {t: rng.choice(["a", "d", "g", "o", "t"]) + t[1:] for t in names}
+        tasks = {ren[t]: td for t, td in tasks.items()}
+        for td in tasks.values():
+            for n in td["next"]:
+                n["do"] = [ren.get(x, x) for x in n["do"]]
+        fates = {ren[t]: f for t, f in fates.items()}
+    vs = ([["x", 0], ["y", 0]] if publish else []) + ([["r", 0]] if items else [])
+    d = D.wf("r", tasks, vars=vs,
+             output=([["ox", "ctx:x"], ["oy", "ctx:y"]] if publish else []) + ([["or", "ctx:r"]] if items else []),
+             fates=fates)
     return d
 
 
@@ -152,5 +248,19 @@ def random_family(seed, count, **kw):
         if not accepted(d):
             continue
         d["name"] = "r%d_%d" % (seed, len(out))
+        out.append(d)
+    return out
+
+
+def with_e2(defs, fates=("s", "f", "C", "P", "p", "t")):
+    """Same definitions under the E1/E2 alphabet: failing tasks may also time out, cancel or pause
+    themselves (pausing/paused/resuming, canceling/canceled) or go pending."""
+    out = []
+    for d in defs:
+        d = copy.deepcopy(d)
+        d["name"] += "_e2"
+        for t in d["fates"]:
+            if "f" in d["fates"][t]:
+                d["fates"][t] = list(fates)
         out.append(d)
     return out
